@@ -12,13 +12,10 @@ Proof. exact tdb_roundtrip. Qed.
 
 (* the same state comes back, so re-serialization is byte-identical *)
 Theorem c11_tdigest_reserialize : forall s s', wfb s -> tdb_dec false (tdb_enc s) = Ok s' -> tdb_enc s' = tdb_enc s.
-Proof. intros s s' W H. rewrite (tdb_roundtrip s W) in H. inversion H. reflexivity. Qed.
+Proof. exact tdb_reserialize. Qed.
 
 (* non-vacuity: k = 100, reverse_merge set, centroids (1.0, w1) (2.5, w7) (4.0, w1), min 1.0, max 4.0 *)
-Definition c11_example_state : tdb :=
-  mkTdb 100 true 0x3ff0000000000000 0x4010000000000000
-        [(0x3ff0000000000000, 1); (0x4004000000000000, 7); (0x4010000000000000, 1)] 9 [].
-
+(* c11_example_state (Proofs/TDigestCodec.v): k = 100, reverse_merge, centroids (1.0,w1) (2.5,w7) (4.0,w1) *)
 Example c11_tdigest_example :
   wfb c11_example_state /\ length (tdb_enc c11_example_state) = 80%nat /\
   tdb_dec false (tdb_enc c11_example_state) = Ok c11_example_state.
